@@ -70,6 +70,10 @@ CLAIMS["C01"] = dict(
     text="Deductive proof over an abstract CRS domain (none / symbolic equivalence class per operand) of the guard logic, running the REAL code on stand-in operands: all 16 @wrap_shapely methods, Geometry.split, common_crs, multigeom, unary_union, unary_intersection, geom.intersects (collections of 1-3 operands, every tag combination): a ValueError (CRSMismatchError) is raised iff some operand's CRS differs from the first's (incl. exactly one without a CRS), before anything is combined; otherwise the result is the SAME shapely operation on the raw shapes, tagged with the first operand's CRS. Bounding-box union/intersection, pixel_translation, bounding_box_in_pixel_domain, GeoBox union/intersection/overlap_roi/snap_to carry the same guard in their C16 contracts. Census (structural): every operation of geom.py/geobox.py taking >= 2 CRS-tagged operands has a guard contract or a stated exemption.",
     note="pyproj CRS equality is ASSUMED to be an equivalence relation; shapely is replaced by a ghost shape algebra (operations are pure and identified by name); 'the same CRS in another spelling compares equal' and agreement with real shapely results are exercised only by the BOUNDED native catalogue (4 CRS tags squared x 4 geometry-kind pairs x 21 operations)",
     technique=TECH + "; structural census of the API", design_ref="DESIGN.md §2 C01")
+CLAIMS["C07"] = dict(
+    text="Deductive proof for densify() on one edge in any position/direction with any resolution and an unbounded number of inserted points (inner while loop under an invariant): first/last vertex kept, every consecutive pair within the resolution, each inserted point on the edge at a multiple of the resolution; an edge is skipped only when it is short enough.",
+    note="shapely LineString.length / interpolate are ASSUMED (Euclidean length, linear interpolation); floats are reals. Multi-edge polylines, segmented() (type, ring/part structure, area/length, subsequence) and to_crs (identity in the same CRS, ValueError without CRS, vertex-exact mapping by pyproj, there-and-back) only by BOUNDED native checks (20 polylines, 36 geometry x resolution cases, 41 geometry x CRS cases); projection accuracy inside pyproj and dateline handling are not decided",
+    technique=TECH + "; loop invariant (inner while loop)", design_ref="DESIGN.md §2 C07")
 NA = {
     "C09": "xarray object-model behaviour (coords/attrs/encoding propagation); no contract within reach can state it - see DESIGN.md C09",
     "C13": "equality of GDAL warps (whole vs chunked) and dask scheduling; no contract within reach - see DESIGN.md C13",
